@@ -159,6 +159,8 @@ func Run(c *Case, ro RunOpts) *Trace {
 	}
 	if cfg.Dry {
 		opts = append(opts, dig.DryRun(true))
+	} else if cfg.DryFalse {
+		opts = append(opts, dig.DryRun(false))
 	}
 	opts = append(opts, dig.VerifSeedRand(1))
 	clockOpt, advance := dig.VerifMockClock()
@@ -319,7 +321,11 @@ func doProvide(rt *RT, sc scopeAPI, op Op, out *OpOut) error {
 			for _, a := range o.AsRaw {
 				as = append(as, rawAs(a))
 			}
-			popts = append(popts, dig.As(as...))
+			if o.AsSplit && len(as) >= 2 {
+				popts = append(popts, dig.As(as[0]), dig.As(as[1:]...))
+			} else {
+				popts = append(popts, dig.As(as...))
+			}
 		}
 		if o.Export {
 			popts = append(popts, dig.Export(true))
